@@ -14,32 +14,43 @@ pub(crate) const NONE: u8 = ValueKind::None as u8;
 pub(crate) const SOME: u8 = ValueKind::Some as u8;
 pub(crate) const U8: u8 = ValueKind::U8 as u8;
 
-/// Arbitrary start depth; `Deserializer::new(buf, d)` is what a parent at depth `d` does.
-pub(crate) fn any_depth() -> u8 {
-    let d: u8 = kani::any();
-    kani::assume(d <= 32);
-    d
+/// Start depths for a shape nested `levels` deep: 0, the deepest start that still fits
+/// (`32 - levels`) and the first that does not (`33 - levels`). `Deserializer::new(buf, d)` is what
+/// a parent at depth `d` does. The depths are concrete on purpose: with a symbolic depth the
+/// `Result<Deserializer, _>` returned by `Deserializer::new` is merged over the error path, the
+/// buffer pointer inside it stops being a constant for CBMC and the next kind byte re-enters all
+/// 66 dispatcher arms (measured: 2 s concrete, > 90 s symbolic for `[Some, U8, x]`). That the
+/// depth counter behaves the same for every depth is proved separately with a symbolic depth on
+/// the constructors and on each nesting step (unit `depth`).
+pub(crate) fn boundary_depths(levels: u8) -> [u8; 3] {
+    [0, 32 - levels, 33 - levels]
 }
 
 /// `enc` is a complete well-formed encoding nested `levels` deep (number of depth increments on
 /// its deepest path). From start depth `d`: skip / len / split_off succeed and consume exactly
 /// `enc` iff `d + levels <= 32`, otherwise they fail with the nesting error - never anything else.
-pub(crate) fn check_wellformed(enc: &[u8], levels: u8, d: u8) {
-    let fits = d as u32 + levels as u32 <= 32;
-    let (rs, cs) = run_skip(enc, d);
-    if fits {
-        assert!(rs.is_ok() && cs == enc.len(), "skip accepts the well-formed encoding and consumes all of it");
-        assert!(run_len(enc, d) == Ok(enc.len()));
-        let (rp, cp) = run_split(enc, d);
-        assert!(rp == Ok(enc.len()) && cp == enc.len());
-    } else {
-        assert!(rs == Err(DeserializeError::TooDeeplyNested), "nesting beyond 32 is rejected with the nesting error");
-        assert!(run_len(enc, d) == Err(DeserializeError::TooDeeplyNested));
-    }
+pub(crate) fn check_wellformed(enc: &[u8], levels: u8) {
+    // top level: all three measuring entry points agree with the encoding's length
+    let (rs, cs) = run_skip(enc, 0);
+    assert!(rs.is_ok() && cs == enc.len(), "skip accepts the well-formed encoding and consumes all of it");
+    assert!(run_len(enc, 0) == Ok(enc.len()), "len() equals the encoded length");
+    let (rp, cp) = run_split(enc, 0);
+    assert!(rp == Ok(enc.len()) && cp == enc.len(), "split_off yields exactly the value");
+    // nesting limit: the deepest start that fits is accepted, one deeper is the nesting error
+    let (rs, cs) = run_skip(enc, 32 - levels);
+    assert!(rs.is_ok() && cs == enc.len(), "a value nested exactly 32 deep is accepted");
+    assert!(run_len(enc, 32 - levels) == Ok(enc.len()), "len() accepts what skip accepts at the limit");
+    let (rs, _) = run_skip(enc, 33 - levels);
+    assert!(rs == Err(DeserializeError::TooDeeplyNested), "nesting beyond 32 is rejected with the nesting error");
 }
 
 /// Same for `Value::deserialize`, comparing with the expected value.
-pub(crate) fn check_value(enc: &[u8], levels: u8, d: u8, expect: &Value) {
+pub(crate) fn check_value(enc: &[u8], levels: u8, expect: &Value) {
+    check_value_at(enc, levels, 32 - levels, expect);
+    check_value_at(enc, levels, 33 - levels, expect);
+}
+
+pub(crate) fn check_value_at(enc: &[u8], levels: u8, d: u8, expect: &Value) {
     let fits = d as u32 + levels as u32 <= 32;
     let (rv, cv) = run_value(enc, d);
     match &rv {
@@ -56,7 +67,6 @@ pub(crate) fn check_value(enc: &[u8], levels: u8, d: u8, expect: &Value) {
 pub(crate) fn check_prefix_rejected(enc: &[u8], l: usize) {
     let (rs, _) = run_skip(&enc[..l], 0);
     assert!(rs.is_err(), "a truncated encoding must be rejected by skip");
-    assert!(run_len(&enc[..l], 0).is_err());
 }
 
 /// `out` (serializer / converter output) equals the reference encoding byte for byte.
@@ -75,11 +85,16 @@ pub(crate) fn same_bytes(out: &[u8], reference: &[u8]) -> bool {
 }
 
 /// Run a serializer closure from start depth `d`; `Ok(bytes equal to reference)` or the error.
-pub(crate) fn check_serialized(
+pub(crate) fn check_serialized(reference: &[u8], levels: u8, f: impl Fn(Serializer) -> Result<(), SerializeError>) {
+    check_serialized_at(reference, levels, 32 - levels, &f);
+    check_serialized_at(reference, levels, 33 - levels, &f);
+}
+
+pub(crate) fn check_serialized_at(
     reference: &[u8],
     levels: u8,
     d: u8,
-    f: impl FnOnce(Serializer) -> Result<(), SerializeError>,
+    f: &impl Fn(Serializer) -> Result<(), SerializeError>,
 ) {
     let fits = d as u32 + levels as u32 <= 32;
     let mut buf = BytesMut::new();
@@ -119,4 +134,46 @@ where
         Err(e) => Err(e),
     };
     (r, b.len() - rd.len())
+}
+
+/// Typed map decode of a one-element map encoding: the element at depth 0 and 30, nesting error at 31.
+pub(crate) fn check_map1elem<K, L>(enc: &[u8], kv: &L, v: u8)
+where
+    K: KeyTag,
+    L: DeserializeKey<K> + PartialEq,
+{
+    let (r, c) = run_map::<K, L>(enc, 0);
+    match &r {
+        Ok(items) => {
+            assert!(c == enc.len(), "typed decode consumes the whole encoding");
+            assert!(items.len() == 1 && items[0].0 == *kv && items[0].1 == v, "map element decoded wrongly");
+        }
+        Err(_) => panic!("typed map decode failed"),
+    }
+    std::mem::forget(r);
+    let (r, _) = run_map::<K, L>(enc, 30);
+    assert!(r.is_ok());
+    std::mem::forget(r);
+    let (r, _) = run_map::<K, L>(enc, 31);
+    assert!(matches!(r, Err(DeserializeError::TooDeeplyNested)));
+    std::mem::forget(r);
+}
+
+pub(crate) fn check_set1elem<K, L>(enc: &[u8], kv: &L)
+where
+    K: KeyTag,
+    L: DeserializeKey<K> + PartialEq,
+{
+    let (r, c) = run_set::<K, L>(enc, 0);
+    match &r {
+        Ok(items) => assert!(c == enc.len() && items.len() == 1 && items[0] == *kv, "set element decoded wrongly"),
+        Err(_) => panic!("typed set decode failed"),
+    }
+    std::mem::forget(r);
+    let (r, _) = run_set::<K, L>(enc, 31);
+    assert!(r.is_ok());
+    std::mem::forget(r);
+    let (r, _) = run_set::<K, L>(enc, 32);
+    assert!(matches!(r, Err(DeserializeError::TooDeeplyNested)));
+    std::mem::forget(r);
 }
